@@ -715,3 +715,12 @@ pub fn replay(sub: &str, case: &Value) -> Result<(), Fail> {
         _ => Err(Fail::new("replay-unknown-sub", sub.to_string())),
     }
 }
+
+pub fn fuzz_targets() -> Vec<crate::fuzz::Target> {
+    use crate::fuzz::from_strategy;
+    vec![
+        from_strategy("c01_pure", "C01", "pure", || msg_case(65536), check_pure),
+        from_strategy("c01_header", "C01", "header", hdr_case, check_hdr),
+        from_strategy("c01_builder", "C01", "builder", builder_case, check_builder),
+    ]
+}
